@@ -314,26 +314,9 @@ Fixpoint known_nested (Q : q2) (nodes : list node) (ps : params) {struct Q} : li
       flat_map (fun p : subinfo * q2 => known_nested (snd p) (flat_map (fun nd => nth (si_ref (fst p)) (nrefs nd) []) nodes) ps) subs
   end.
 
-(* T3: a group (of the rows that pass the filters) on which an aggregate of the selection, as query.rs computes it,
-   is not the aggregate of the values:
-     9  min / max compare the JSON texts of the values (10 < 9, null above every number)
-     10 avg divides by the number of rows of the group, absent values counted as 0 *)
-Definition cell_eqb (a b : cell) : bool :=
-  match a, b with
-  | CV x, CV y => val_eqb x y
-  | CAvg s n, CAvg s' n' => Z.eqb s s' && Z.eqb n n'
-  | _, _ => false
-  end.
-Definition agg_differs (pick : afn -> bool) (rows : db) (q : aquery) : bool :=
-  existsb (fun g => existsb (fun c => match c with
-                                      | GAgg a => pick a && negb (cell_eqb (agg_impl g a) (agg_spec g a))
-                                      | GField _ => false
-                                      end) (a_cols q))
-          (all_groups (a_cols q) (filter (passes (a_where q)) rows)).
-Definition is_minmax (a : afn) : bool := match a with AMax _ | AMin _ => true | _ => false end.
-Definition is_avg (a : afn) : bool := match a with AAvg _ => true | _ => false end.
-Definition known_agg (rows : db) (q : aquery) : list Z :=
-  cls (agg_differs is_minmax rows q) 9 ++ cls (agg_differs is_avg rows q) 10.
+(* T3: classes 9 (min / max compared the JSON texts) and 10 (avg counted absent values as 0) were repaired in /repo
+   (b717988): no class is left for aggregate queries *)
+Definition known_agg (rows : db) (q : aquery) : list Z := [].
 
 Definition known_C05 (c : c05case) : list Z :=
   match c with
